@@ -251,8 +251,8 @@ def sun_fraction(c, rec):
     # monotone: moving the Sun further from the Earth's disk centre never decreases the visible fraction
     sep2 = sep + a0 * c["u2"]
     f2 = float(calculateSunVizFraction(r, sun_at(sep2)))
-    # (the lens formula's own noise near first/last contact is ~1e-5, see above; a wrong-signed term reverses the trend by >= 1e-2)
-    if f2 < f - 2e-5:
+    # (the lens formula has steps of up to ~3e-5 at first/last contact - observed 3.2e-5 -> 0 at the umbra edge; a wrong-signed term reverses the trend by >= 1e-2)
+    if f2 < f - 1e-4:
         raise Violation("sun_fraction_monotone", f"fraction decreases from {f!r} to {f2!r} when the Sun moves away from the Earth's disk ({sep!r} -> {sep2!r})")
 
 
